@@ -720,11 +720,12 @@ class CopyingFrames(Suite):
                            ("reset", reset_index), ("sort", sort_nodes)):
                 src = frame()
                 before = _frame_cols(src)
-                leak = False
+                leak, after = False, None
                 try:
                     r = fn(src)
                     got = _frame_cols(r)
                     shares = (r is src) or any(np.shares_memory(r[c].to_numpy(), src[c].to_numpy()) for c in r.columns)
+                    after = _frame_cols(src)
                     for c in r.columns:          # later edits of the result, in place where the array allows it
                         try:
                             r[c].to_numpy()[...] = 99
@@ -735,7 +736,7 @@ class CopyingFrames(Suite):
                     leak = _frame_cols(src) != before
                 except Exception as e:  # noqa: BLE001
                     got, shares = {"exc": type(e).__name__}, False
-                rows.append([op, before, got, _frame_cols(src), bool(shares), bool(leak)])
+                rows.append([op, before, got, after or _frame_cols(src), bool(shares), bool(leak)])
         return {"rows": rows}
 
     def lines(self, case, res):
